@@ -538,12 +538,20 @@ cands = {
  'restricted_namespace': ({'restricted_namespace': True}, {'restricted_namespace': False}, '<a xmlns:v="u" v:x="1"/>'),
  'default_expression': ({'default_expression': 'python'}, {'default_expression': 'string'}, '<a tal:content="x"/>'),
  'mode': ({'mode': 'xml'}, {'mode': 'text'}, 'a ${"<"}'),
+ 'boolean_attributes:none-vs-empty': ({}, {'boolean_attributes': frozenset()}, '<input checked="${v}"/>'),
+ 'boolean_attributes:none-vs-empty-list': ({}, {'boolean_attributes': []}, '<input checked="${v}"/>'),
+ 'implicit_i18n_attributes:none-vs-empty': ({}, {'implicit_i18n_attributes': frozenset()}, '<a title="t"/>'),
+ 'implicit_i18n_translate': ({'implicit_i18n_translate': True}, {'implicit_i18n_translate': False}, '<a>text</a>'),
+ 'trim_attribute_space': ({'trim_attribute_space': True}, {'trim_attribute_space': False}, '<a  x="1"\n   y="2"/>'),
  'default_marker': ({}, {}, '<a/>'),
  'tokenizer': ({}, {}, '<a/>'),
  'encoding': ({}, {}, '<a/>'),
 }
 out = {}
-for attr in json.loads(sys.argv[2]):
+want = json.loads(sys.argv[2])
+if want == ['*']:
+    want = list(cands)
+for attr in want:
     if attr not in cands: continue
     a, b, body = cands[attr]
     if a == b: continue
@@ -552,7 +560,7 @@ for attr in json.loads(sys.argv[2]):
         names = ('macros', 'nothing', 'template')
         da, db = ta.digest(body, names), tb.digest(body, names)
         import re
-        norm = lambda s: re.sub(r'\d{6,}', 'N', s)
+        norm = lambda s: re.sub(r'\d{6,}', 'N', '\n'.join(l for l in s.split('\n') if not l.strip().startswith('#')))
         if da == db and norm(ta.source) != norm(tb.source):
             out[attr] = {'body': body, 'config_a': repr(a), 'config_b': repr(b), 'digest': da}
     except Exception as e:
@@ -579,6 +587,27 @@ def digest_demo(attrs):
         return {'witness': wit or None, 'errors': res.get('_errors'), 'stderr': p.stderr[-500:]}
     finally:
         os.unlink(path)
+
+
+def digest_injective(spec):
+    """C15: "keyed by ... every option that influences code generation" -- for a catalogue of
+    option pairs that make the compiler emit different code, the cache keys differ (complete
+    enumeration of that finite catalogue on the real digest() and the real compiler)"""
+    t0 = time.time()
+    demo = digest_demo(['*'])
+    wit = demo.get('witness')
+    o = ob('digest.distinguishes_options', not wit and not demo.get('errors'),
+           'whenever two configurations of the option catalogue make the compiler emit different code for '
+           'the same body, digest() gives them different cache keys (None / empty / non-empty values of '
+           'set-valued options included)',
+           {'collisions': wit, 'errors': demo.get('errors')}, kind='data')
+    if wit:
+        o['confirmed'] = True
+        k = sorted(wit)[0]
+        o['witness'] = {'inputs': wit[k], 'detail': 'same digest, different generated code (%d colliding pairs: %s)'
+                                                   % (len(wit), ', '.join(sorted(wit)))}
+    return {'unit': 'frames.digest_injective', 'function': 'zpt/template.py::PageTemplate.digest',
+            'obligations': [o], 'wall': time.time() - t0}
 
 
 # ---------------------------------------------------------------------------
